@@ -219,3 +219,88 @@ def subinterval_amplification(d):
     if 'y1' in d and 'y2' in d:
         return max(1.0, d['b'] / max(d['y2'] - d['y1'], 1e-300))
     return 1.0
+
+
+# ----------------------------------------------------------------------------
+# stiffened panel bays
+# ----------------------------------------------------------------------------
+def simple_lam(rng, tscale, nmax=3, kind=None):
+    """(stack, plyt, laminaprop) uniform laminate for bays/stiffeners"""
+    n = int(rng.integers(1, nmax + 1))
+    if kind == 'iso':
+        mat = material(rng, 3)
+        stack = [0.] * n
+    else:
+        mat = material(rng, 6)
+        stack = [float(rng.choice([0, 45, -45, 90, 30])) for _ in range(n)]
+    return stack, float(tscale), tuple(mat)
+
+
+def bay_desc(rng, curved=None, mmax=6, nstiff=(0, 2), kinds=('blade1d', 'blade2d', 't2d'), ncuts=None, fl=None):
+    a = logu(rng, 0.2, 5)
+    b = a * logu(rng, 0.4, 2.5)
+    d = {'a': a, 'b': b, 'm': int(rng.integers(3, mmax + 1)), 'n': int(rng.integers(3, mmax + 1))}
+    if curved is None:
+        curved = rng.random() < 0.4
+    if curved:
+        d['r'] = b * logu(rng, 0.8, 1e3)
+    t = min(a, b) * logu(rng, 2e-3, 2e-2)
+    stack, plyt, mat = simple_lam(rng, t / 3, 4)
+    d['stack'] = stack; d['plyt'] = plyt; d['laminaprop'] = list(mat)
+    d['mu'] = logu(rng, 1e2, 1e4)
+    d['flags'] = fl if fl is not None else flags(rng, style=str(rng.choice(['ss', 'clamped', 'binary', 'mixed', 'free'])))
+    if ncuts is None:
+        ncuts = int(rng.integers(0, 5))
+    cuts = sorted(float(x) for x in rng.uniform(0.05 * b, 0.95 * b, ncuts))
+    d['cuts'] = cuts
+    ns = int(rng.integers(nstiff[0], nstiff[1] + 1))
+    st = []
+    edges = [0.0] + cuts + [b]
+    for _ in range(ns):
+        kind = str(rng.choice(list(kinds)))
+        ys = float(rng.choice(edges))
+        s = {'kind': kind, 'ys': ys}
+        bb = b * float(rng.uniform(0.05, 0.2))
+        # keep the base inside the bay
+        if ys - bb / 2 < 0 or ys + bb / 2 > b:
+            if kind != 'blade1d':
+                ys = float(rng.choice(cuts)) if cuts else None
+                if ys is None or ys - bb / 2 < 0 or ys + bb / 2 > b:
+                    continue
+                s['ys'] = ys
+        fs, fp, fm = simple_lam(rng, t / 2, 3)
+        s.update(bf=b * float(rng.uniform(0.03, 0.15)), fstack=fs, fplyt=fp, flaminaprop=list(fm))
+        if kind == 't2d' or rng.random() < 0.5:
+            bs, bp, bm = simple_lam(rng, t / 3, 3)
+            s.update(bb=bb, bstack=bs, bplyt=bp, blaminaprop=list(bm))
+        if kind in ('blade2d', 't2d'):
+            s.update(mf=int(rng.integers(3, 6)), nf=int(rng.integers(3, 6)))
+        if kind == 't2d':
+            s.update(mb=int(rng.integers(3, 6)), nb=int(rng.integers(3, 6)))
+        st.append(s)
+    d['stiffeners'] = st
+    return d
+
+
+def build_bay(d):
+    from compmech.stiffpanelbay import StiffPanelBay
+    bay = StiffPanelBay()
+    bay.a = d['a']; bay.b = d['b']; bay.m = d['m']; bay.n = d['n']
+    if 'r' in d:
+        bay.r = d['r']
+    bay.stack = list(d['stack']); bay.plyt = d['plyt']; bay.laminaprop = tuple(d['laminaprop'])
+    bay.mu = d['mu']
+    apply_flags(bay, d['flags'])
+    bay.out_num_cores = 1
+    edges = [0.0] + list(d['cuts']) + [d['b']]
+    for y1, y2 in zip(edges[:-1], edges[1:]):
+        bay.add_panel(y1, y2)
+    for s in d['stiffeners']:
+        kw = {k: (tuple(v) if k.endswith('laminaprop') else v) for k, v in s.items() if k not in ('kind', 'ys')}
+        if s['kind'] == 'blade1d':
+            bay.add_bladestiff1d(s['ys'], **kw)
+        elif s['kind'] == 'blade2d':
+            bay.add_bladestiff2d(s['ys'], **kw)
+        else:
+            bay.add_tstiff2d(s['ys'], **kw)
+    return bay
